@@ -91,19 +91,28 @@ def _replay_one(beh):
         ok = False
     if ok and _LIFE and o["status"] == "done" and o["lifecycle"] != "ok":
         ok = False
-    return None if ok else {"h": beh["h"], "s": beh["s"], "want": want, "got": got, "issues": o["issues"], "lifecycle": o["lifecycle"]}
+    if ok:
+        return None
+    # the very observation that disagrees is what TLC judges afterwards (not a second run of the same behaviour: a defect
+    # that depends on memory layout need not show twice)
+    return {"h": beh["h"], "s": beh["s"], "want": want, "got": got, "issues": o["issues"], "lifecycle": o["lifecycle"],
+            "trace": _trace_of(0, docs, beh["s"], tree, o)}
 
 
-def replay(uni, behs, life):
-    with mp.Pool(16, initializer=_init, initargs=(uni, life)) as pool:
+def replay(uni, behs, life, with_docs=False):
+    with mp.Pool(16, initializer=_init, initargs=(uni, life, with_docs)) as pool:
         res = pool.map(_replay_one, behs, chunksize=max(1, len(behs) // 128 or 1))
     return [r for r in res if r is not None]
 
 
 def _record_one(args):
     tid, docs, safes = args
-    import project as P
     tree, o = observe_docs(docs, safes, lifecycle=_LIFE)
+    return _trace_of(tid, docs, safes, tree, o)
+
+
+def _trace_of(tid, docs, safes, tree, o):
+    import project as P
     if tree is None:
         return {"tid": tid, "skip": o["status"]}
     import copy
@@ -216,7 +225,7 @@ def _run(spec, prop, tier, seed, replay_path, wd):
             raise E.MachineryError(f"the specification itself violates {ex['violated']} on {docs_name}\n" + shown)
         uni, behs = ex["universe"], ex["behaviours"]
         t0 = time.time()
-        mism = replay(uni, behs, life)
+        mism = replay(uni, behs, life, bool(spec.get("with_docs")))
         if os.environ.get("VERIF_DEBUG"):
             from collections import Counter
             print("DEBUG mismatches", len(mism), Counter((m["want"]["status"], m["got"]["status"]) for m in mism))
@@ -259,12 +268,14 @@ def _run(spec, prop, tier, seed, replay_path, wd):
         docs, safes = spec["gen"](rng, spec.get("max_stages", 2))
         hs.append((tid, docs, safes))
         info[tid] = (docs, safes, None)
+    traces = [t for t in record(hs, life, bool(spec.get("with_docs")))]
     tid = 1000000
     for docs, safes, m in bad_hist:
-        hs.append((tid, docs, safes))
+        t = dict(m.pop("trace"))
+        t["tid"] = tid
+        traces.append(t)
         info[tid] = (docs, safes, m)
         tid += 1
-    traces = [t for t in record(hs, life, bool(spec.get("with_docs")))]
     usable = [t for t in traces if "skip" not in t]
     rows, st, tr = validate(prop, usable, wd)
     cov["states"] += st
